@@ -339,3 +339,73 @@ def impl_expand_many(case, scratch):
             outs.append(["raised", type(e).__name__, tb[-1].name if tb else ""])
             ctx.expand_stack = []
     return {"outcome": "ok", "outs": outs}
+
+
+# ---------------------------------------------------------------- expansion with a template library (C04/C05/C13/C15)
+def _decode(ctx, text):
+    """Encoded string -> nested list AST: code points, or [kind, [args...]] / ["N", content]."""
+    from wikitextprocessor.common import MAGIC_FIRST, MAGIC_LAST
+    out = []
+    for ch in text:
+        o = ord(ch)
+        if MAGIC_FIRST <= o <= MAGIC_LAST and o - MAGIC_FIRST < len(ctx.cookies):
+            kind, args, nowiki = ctx.cookies[o - MAGIC_FIRST]
+            if kind == "N":
+                out.append(["N", args[0]])
+            else:
+                out.append([kind + ("!" if nowiki else ""), [_decode(ctx, a) for a in args]])
+        else:
+            out.append(o)
+    return out
+
+
+def encode_ast(ctx, text):
+    ctx.start_page("Tt")
+    return _decode(ctx, ctx._encode(ctx.preprocess_text(text)))
+
+
+def impl_expandlib(case, scratch):
+    """case: lib: [[name, body, need_pre]], page, opts{pre_expand, parserfns, expand_names, not_expand_names,
+    tfn, pfn}, title.  Returns output, stack, messages and the ASTs the implementation really parsed."""
+    ctx = new_ctx(scratch)
+    try:
+        for name, body, pre in case["lib"]:
+            ctx.add_page("Template:" + name, 10, body, need_pre_expand=bool(pre))
+        ctx.db_conn.commit()
+        lib_ast = []
+        for name, body, pre in case["lib"]:
+            stored = ctx.get_page("Template:" + name, 10).body
+            b = stored
+            if b.startswith(("#", "*", ";", ":")):
+                b = "\n" + b
+            lib_ast.append([name, encode_ast(ctx, b), bool(pre), stored])
+        page_ast = encode_ast(ctx, case["page"])
+        o = case.get("opts", {})
+        calls = []
+
+        def tfn(name, ht):
+            calls.append(["t", name, [[k, v] for k, v in ht.items()]])
+            r = o.get("tfn_ret", {}).get(name)
+            return r
+
+        def pfn(name, ht, exp):
+            calls.append(["p", name, [[k, v] for k, v in ht.items()], exp])
+            return o.get("pfn_ret", {}).get(name)
+
+        kw = dict(pre_expand=o.get("pre_expand", False), expand_parserfns=o.get("parserfns", True))
+        if o.get("expand_names") is not None:
+            kw["templates_to_expand"] = set(o["expand_names"])
+        if o.get("not_expand_names") is not None:
+            kw["templates_to_not_expand"] = set(o["not_expand_names"])
+        if o.get("tfn"):
+            kw["template_fn"] = tfn
+        if o.get("pfn"):
+            kw["post_template_fn"] = pfn
+        ctx.start_page(case.get("title", "Tt"))
+        before = list(ctx.expand_stack)
+        out = ctx.expand(case["page"], **kw)
+        return {"outcome": "ok", "out": out, "stack_ok": ctx.expand_stack == before,
+                "msgs": {k: [m["msg"][:80] for m in v] for k, v in ctx.to_return().items() if v},
+                "page_ast": page_ast, "lib_ast": lib_ast, "calls": calls}
+    finally:
+        close_ctx(ctx)
